@@ -140,6 +140,7 @@ func (n *OneToManyNode) backward(index int) port.Listener {
 		for backPck := range outWriter.Receive() {
 			n.tracer.Receive(outWriter, backPck)
 		}
+		n.tracer.Drop(outWriter)
 	})
 }
 
@@ -149,4 +150,5 @@ func (n *OneToManyNode) catch(proc *process.Process) {
 	for backPck := range errWriter.Receive() {
 		n.tracer.Receive(errWriter, backPck)
 	}
+	n.tracer.Drop(errWriter)
 }
